@@ -264,3 +264,12 @@ def run(res, tier, lean, prop="C01", proof_breaks=(), build_log=""):
                            "vanish_before_add_watch_call": vanish, "vanished": out["vanished"], "delivered": out["per_op"],
                            "tree": out["tree"], "probes": out["probes"]}, signature=f"{prop.lower()}-burst-judge")
             break
+
+    # a table-level theorem about the model's emitter no longer checks against the regenerated decision table of
+    # InotifyEmitter.queue_events: every history above was judged; if none of them failed, report the broken obligation
+    if proof_breaks and not res.violations:
+        res.violation(f"WD.EmitTable.emit_agrees_with_source no longer checks: the decision table regenerated from "
+                      f"InotifyEmitter.queue_events differs from WD.Pipe.emit (the emitter the {prop} theorems are about); "
+                      "every explored history (drained, split reads, bursts) was judged and none failed",
+                      {"theorem_no_longer_checks": list(proof_breaks), "lean_error": build_log[-3000:]}, no_input=True,
+                      signature=f"{prop.lower()}-emit-table")
